@@ -1,11 +1,205 @@
-//! C03 (not built yet)
-use crate::report::{Disagreement, Run};
-use serde_json::Value;
+//! C03 Replicas that apply the diff queue converge (all histories with undo/redo, all flush schedules).
 
-pub fn run(run: &mut Run) {
-    run.machinery_errors.push("C03: check not built yet".into());
+use crate::hist::{self, HistCfg};
+use crate::obs::{self, ObsOpts};
+use crate::ops::Op;
+use crate::props::c01::{classes, shape_tokens};
+use crate::report::{Disagreement, Run};
+use crate::seeds;
+use ironcalc_base::UserModel;
+use serde_json::{json, Value};
+
+pub struct Out {
+    pub ds: Vec<Disagreement>,
+    pub runs: u64,
+    pub steps: u64,
+    pub nontrivial: u64,
+    pub digests: Vec<u128>,
 }
 
-pub fn replay(_case: &Value) -> Vec<Disagreement> {
-    vec![]
+/// Runs `word` on the primary, flushing after step i iff bit i of `cuts` is set (always after the last step),
+/// applying every flushed batch on a replica loaded from the same initial bytes.
+pub fn judge_schedule(seed: &'static str, word: &[Op], cuts: u32) -> Option<(Vec<Disagreement>, u64, bool, u128)> {
+    let o = ObsOpts::default();
+    let mut ds = vec![];
+    let n = word.len();
+    let case = json!({"seed": seed, "ops": word, "cuts": cuts});
+    let mut p = seeds::load(seed);
+    let mut r = UserModel::from_bytes(seeds::seed_bytes(seed), "en").ok()?;
+    let mut steps = 0u64;
+    let mut sent_any = false;
+    for (i, op) in word.iter().enumerate() {
+        match crate::env::guarded(|| op.apply(&mut p)) {
+            Ok(Ok(())) => {}
+            Ok(Err(_)) => {
+                if i + 1 < n {
+                    return None; // prefixes are all-Ok by construction; a failing last op is still a step (nothing queued)
+                }
+            }
+            Err(_) => return None, // panics are judged by C01/C27
+        }
+        steps += 1;
+        let flush_now = i + 1 == n || (cuts >> i) & 1 == 1;
+        if flush_now {
+            let qlen = p.verif_send_queue_len();
+            let bytes = p.flush_send_queue();
+            if qlen > 0 {
+                sent_any = true;
+            }
+            let res = crate::env::guarded(|| r.apply_external_diffs(&bytes));
+            steps += 1;
+            match res {
+                Err(pn) => {
+                    ds.push(Disagreement {
+                        sig: format!("panic apply_external_diffs last-op={} at={}", op.kind(), pn.split(" @ ").last().unwrap_or("")),
+                        case: case.clone(),
+                        detail: format!("replica panicked applying the batch flushed after step {}: {}", i, pn),
+                    });
+                    return Some((ds, steps, sent_any, 0));
+                }
+                Ok(Err(e)) => {
+                    ds.push(Disagreement {
+                        sig: format!("replica-error last-op={}", op.kind()),
+                        case: case.clone(),
+                        detail: format!("apply_external_diffs returned Err({}) for the batch flushed after step {} ({:?})", e, i, op),
+                    });
+                    return Some((ds, steps, sent_any, 0));
+                }
+                Ok(Ok(())) => {}
+            }
+            let a = obs::observe(&p, &o);
+            let b = obs::observe(&r, &o);
+            if a != b {
+                let df = obs::diff(&a, &b);
+                // name the culprit: the first step at which a replica fed step by step diverges; if it never
+                // does, the divergence needs this particular batching and the batch's kinds are named instead
+                let (culprit, sdf) = match first_divergent_step(seed, word) {
+                    Some((j, d)) => (format!("step:{}", word[j].kind()), d),
+                    None => {
+                        let first = (0..=i).rev().take_while(|j| *j == i || (cuts >> *j) & 1 == 0).last().unwrap_or(i);
+                        let kinds: Vec<&str> = word[first..=i].iter().map(|x| x.kind()).collect();
+                        (format!("batch:{}", kinds.join(">")), df.clone())
+                    }
+                };
+                ds.push(Disagreement {
+                    sig: format!("replica-diverges culprit={} fields={} shape={}", culprit, classes(&sdf), shape_tokens(&sdf)),
+                    case: case.clone(),
+                    detail: format!(
+                        "after the batch flushed at step {} the replica (right) differs from the primary (left):\n{}",
+                        i,
+                        obs::diff_text(&df, 8)
+                    ),
+                });
+                return Some((ds, steps, sent_any, 0));
+            }
+        }
+    }
+    let fin = obs::digest(&obs::observe(&p, &o));
+    Some((ds, steps, sent_any, fin))
+}
+
+/// Flushes after every step; returns the index of the first step after which primary and replica differ,
+/// with the difference seen there (empty when the replica returned an error).
+fn first_divergent_step(seed: &'static str, word: &[Op]) -> Option<(usize, Vec<(String, String, String)>)> {
+    let o = ObsOpts::default();
+    let mut p = seeds::load(seed);
+    let mut r = UserModel::from_bytes(seeds::seed_bytes(seed), "en").ok()?;
+    for (i, op) in word.iter().enumerate() {
+        let _ = crate::env::guarded(|| op.apply(&mut p));
+        let bytes = p.flush_send_queue();
+        match crate::env::guarded(|| r.apply_external_diffs(&bytes)) {
+            Ok(Ok(())) => {}
+            _ => return Some((i, vec![])),
+        }
+        let a = obs::observe(&p, &o);
+        let b = obs::observe(&r, &o);
+        if a != b {
+            return Some((i, obs::diff(&a, &b)));
+        }
+    }
+    None
+}
+
+fn judge_word(seed: &'static str, word: &[Op]) -> Option<Out> {
+    let n = word.len();
+    let mut out = Out { ds: vec![], runs: 0, steps: 0, nontrivial: 0, digests: vec![] };
+    for cuts in 0..(1u32 << (n - 1)) {
+        let (ds, steps, nt, fin) = judge_schedule(seed, word, cuts)?;
+        out.runs += 1;
+        out.steps += steps;
+        if nt {
+            out.nontrivial += 1;
+        }
+        if fin != 0 {
+            out.digests.push(fin);
+        }
+        out.ds.extend(ds);
+    }
+    Some(out)
+}
+
+pub fn run(run: &mut Run) {
+    let thorough = run.tier.thorough();
+    let mut full = seeds::alphabet_full();
+    full.push(Op::Undo);
+    full.push(Op::Redo);
+    let mut core = seeds::alphabet_core();
+    core.push(Op::Undo);
+    core.push(Op::Redo);
+    let all_seeds: Vec<&'static str> = seeds::SEEDS.to_vec();
+    let mut plans: Vec<(HistCfg, usize, &str)> = vec![
+        (HistCfg { seeds: all_seeds.clone(), alphabet: full.clone(), depth: 1 }, 1, "full+undo/redo"),
+        (HistCfg { seeds: if thorough { all_seeds.clone() } else { vec!["basic"] }, alphabet: full.clone(), depth: 2 }, 2, "full+undo/redo"),
+    ];
+    if thorough {
+        plans.push((HistCfg { seeds: vec!["basic"], alphabet: core.clone(), depth: 3 }, 3, "core+undo/redo"));
+        plans.push((HistCfg { seeds: vec!["empty"], alphabet: core.clone(), depth: 3 }, 3, "core+undo/redo"));
+    } else {
+        // depth 3 over a reduced interaction alphabet: every third core operation plus undo and redo
+        let mut small: Vec<Op> = core.iter().step_by(3).cloned().collect();
+        small.push(Op::Undo);
+        small.push(Op::Redo);
+        plans.push((HistCfg { seeds: vec!["basic"], alphabet: small, depth: 3 }, 3, "core/3+undo/redo"));
+    }
+    let mut outcomes = std::collections::HashSet::new();
+    let mut bounds = vec![];
+    for (cfg, len, name) in &plans {
+        let (outs, st, errs) = hist::explore(cfg, *len, &judge_word);
+        for e in errs {
+            run.machinery_errors.push(e);
+        }
+        let mut runs = 0;
+        for w in outs {
+            runs += w.runs;
+            run.evaluations += w.runs;
+            run.traces += w.runs;
+            run.transitions += w.steps;
+            run.states += w.steps;
+            run.nontrivial += w.nontrivial;
+            for d in w.digests {
+                outcomes.insert(d);
+            }
+            run.add_all(w.ds);
+        }
+        bounds.push(json!({"alphabet": name, "alphabet_size": cfg.alphabet.len(), "length": len, "flush_schedules_per_history": 1u32 << (len - 1),
+            "seeds": cfg.seeds, "histories": st.words, "executions": runs}));
+        if run.elapsed() > if thorough { 3000.0 } else { 100.0 } {
+            run.cap_hit = Some(format!("wall clock after plan {} len {}", name, len));
+            break;
+        }
+    }
+    run.distinct_outcomes = outcomes.len() as u64;
+    run.bound = json!({"plans": bounds, "hash_seed": crate::env::hash_seed()});
+    run.rule = "every history of the stated length over operations ∪ {undo, redo} × EVERY way of cutting it into flush batches (2^(n-1) schedules); the primary runs the history flushing at the cuts, a replica loaded from the same initial bytes applies each flushed byte string; after every batch the observations must be equal. non-trivial = executions in which at least one non-empty batch was sent".into();
+    run.sample(json!({"seed":"basic","ops":[core[0], Op::Undo],"cuts":1}));
+    run.sample(json!({"seed":"basic","ops":[core[22], core[7], Op::Undo],"cuts":2}));
+    run.sample(json!({"seed":"empty","ops":[full[60], Op::Redo],"cuts":0}));
+    run.assume("one primary; the replica runs under the same hash seed in the same unit");
+}
+
+pub fn replay(case: &Value) -> Vec<Disagreement> {
+    let seed = hist::seed_name(case["seed"].as_str().unwrap_or("empty"));
+    let ops: Vec<Op> = serde_json::from_value(case["ops"].clone()).unwrap_or_default();
+    let cuts = case["cuts"].as_u64().unwrap_or(0) as u32;
+    judge_schedule(seed, &ops, cuts).map(|x| x.0).unwrap_or_default()
 }
